@@ -307,7 +307,45 @@ def rule_image(ck):
     ck.ob("mpt.image", "apply_new_status/new-threads-get-the-image", len(exec_adds) <= 1, f"{len(adds)} registrations, {len(exec_adds)} not followed by distribute_to_tracee (1 allowed: the exec of the main thread)", ans.loc())
 
 
+def rule_companion_identity(ck):
+    prog = ck.prog
+    ck.rule("table.companion_identity", "watchpoints refer to their end-of-scope companion breakpoint by number: when a companion already exists at the address the replacing object keeps that number and extends its watchpoint list (a fresh number is allocated only when none exists); from_dqe stores the number returned by the registry; decrease_companion_rc looks the companion up by that number")
+    BPX = "debugger::breakpoint::Breakpoint"
+    f = ck.anchor(BPX + "::new_watchpoint_companion")
+    ni = [c for c in f.calls() if c.name == BPX + "::new_inner"]
+    if ck.ob("table.companion_identity", "new_watchpoint_companion/one-constructor", len(ni) == 1, "", f.loc()):
+        num = expr_of(f, ni[0].args[2])
+        s_ = expr_str(num, 8)
+        alts = num[1] if num[0] == "multi" else [num]
+        reuse = [a for a in alts if "get_enabled" in expr_str(a, 10) and ".number" in expr_str(a, 10)]
+        fresh = [a for a in alts if "fetch_add" in expr_str(a, 10)]
+        ck.ob("table.companion_identity", "new_watchpoint_companion/existing-number-reused", bool(reuse), f"number = {s_}: the number of an existing companion is never reused, watchpoints holding the old number can no longer release it", f.loc(ni[0].bb), what="a second watchpoint in the same scope renumbers the shared companion breakpoint")
+        ck.ob("table.companion_identity", "new_watchpoint_companion/fresh-number-otherwise", bool(fresh), f"number = {s_}", f.loc(ni[0].bb))
+        ty = expr_str(expr_of(f, ni[0].args[4]), 10)
+        ck.ob("table.companion_identity", "new_watchpoint_companion/extends-watchpoint-list", "WatchpointCompanion" in ty and ("push" in " ".join(c.name for c in f.calls()) ), f"type = {ty[:120]}", f.loc(ni[0].bb))
+        pushes = [c for c in f.calls() if c.name.endswith("Vec::<T, A>::push")]
+        ck.ob("table.companion_identity", "new_watchpoint_companion/appends-this-watchpoint", any(expr_of(f, c.args[1]) == ("arg", 2) for c in pushes) or "arg2" in ty, "", f.loc())
+    d = ck.anchor("debugger::breakpoint::BreakpointRegistry::decrease_companion_rc")
+    cl = [prog.fns[p] for p in prog.closures_of(d.path)]
+    by_num = False
+    for g in cl:
+        for i, j, pl, rv, sp in g.assigns():
+            if rv["r"] == "bin" and rv["op"] == "Eq":
+                sa, sb = expr_str(expr_of(g, rv["a"]), 6), expr_str(expr_of(g, rv["b"]), 6)
+                if ".number" in sa + sb:
+                    by_num = True
+    ck.ob("table.companion_identity", "decrease_companion_rc/lookup-by-number", by_num, "", d.loc())
+    w = ck.anchor("debugger::watchpoint::Watchpoint::from_dqe")
+    st = [rv for _, _, _, rv, _ in w.assigns() if rv["r"] == "agg" and rv["name"].endswith("ExpressionTarget") and "companion" in rv["fields"]]
+    ok = False
+    if st:
+        e = expr_str(expr_of(w, st[0]["ops"][st[0]["fields"].index("companion")]), 10)
+        ok = "add_and_enable" in e and ".number" in e
+    ck.ob("table.companion_identity", "from_dqe/stores-registry-number", ok, "", w.loc())
+
+
 def run(ck):
+    rule_companion_identity(ck)
     rule_bits(ck)
     rule_slot(ck)
     rule_refusal(ck)
